@@ -28,7 +28,10 @@ EFFECTS = {
 def _known_adt(prog, a):
     from .. import normalize
     ref = normalize.reference().get("adts") or {}
-    return a in prog.adts and (a in ref or not ref or prog.adts[a].get("kind") != "struct")
+    if a in prog.adts and prog.adts[a].get("kind") != "struct":
+        enums = normalize.reference().get("enums")
+        return enums is None or a in enums or not a.split("::")[0] in ("rt", "sync", "cell", "thread", "model", "future", "alloc", "lazy_static", "hint")
+    return a in prog.adts and (a in ref or not ref)
 
 
 def _fn_tokens(prog, key, depth, seen):
@@ -52,12 +55,14 @@ def _fn_tokens(prog, key, depth, seen):
             t = body.term(b)
             if t["k"] == "switch":
                 exprs.append(body.expr_of_operand(t["op"]))
-            if t["k"] == "call" and not t["dest"]["p"] and t["dest"]["l"] == 0 and not is_noise(t):
-                # `f(..)` as the tail expression: the returned value is the callee's (the same as `let r = f(..); r`)
-                exprs.append(("call", callee_path(t), [body.expr_of_operand(a) for a in t["args"]], b))
             for st in body.blocks[b]["stmts"]:
                 if st["k"] == "=" and st["lhs"]["l"] == 0:
-                    exprs.append(body.expr_of_rvalue(st["rv"]))
+                    e_ = body.expr_of_rvalue(st["rv"])
+                    if st["rv"]["k"] == "use" and not st["lhs"]["p"] and strip(e_)[0] == "call" and strip(e_)[1] in prog.fns:
+                        # `let r = f(..); r` is `f(..)` as the tail expression (a call terminator writing the return place, which
+                        # is not an expression of this body): what a callee's result was computed from is the callee's business
+                        continue
+                    exprs.append(e_)
         for e in exprs:
             out |= _tokens(prog, bk, e, depth + 1, seen)
     return out
@@ -347,14 +352,14 @@ def _write_sites(prog):
             if w["kind"] == "borrow_mut" and "&mut " in f.body.locals[0]["ty"]:
                 continue        # an accessor handing out `&mut` to the field: whoever receives it may write, the accessor does not
             if w["kind"] == "borrow_mut" and isinstance(w["idx"], int):
-                # a `&mut` handed to a crate-local function is not a write by itself: what that function assigns is its own
-                # business (and is propagated from it); handed to std (`push_back`, `insert`, `as_mut`, ..) it is the mutation
+                # a `&mut` handed to a crate-local accessor (a function that returns a `&mut` derived from it) is not a write by
+                # itself; handed to any other function (`join`, `push_back`, `insert`, ..) it is the mutation
                 cons = prog.borrow_consumer(w["fn"], w["bb"], w["idx"])
                 if cons is not None:
                     inst_ = prog.ident(w["fn"])
                     c_ = prog.insts[inst_].calls.get(cons[0]) if inst_ is not None else None
                     k_ = prog.callee_key(c_) if c_ else None
-                    if k_ in prog.fns:
+                    if k_ in prog.fns and "&mut " in prog.fns[k_].body.locals[0]["ty"]:
                         continue
             # (`x.f = v` and `match &mut x.f { .. }` / `x.f.as_mut()` are two spellings of updating the field)
             out.setdefault((w["fn"], "%s.%s" % (adt, fld)), []).append(w["bb"])
